@@ -1,6 +1,7 @@
 import MaltModel.Conv.SexpTotal
 import MaltModel.Conv.TemplateHyp
 import MaltModel.Conv.SrcClass
+import MaltModel.Conv.Arity
 import MaltModel.Generated.Templates
 /- Driver handlers for the C17 correspondence and the verified context checker (glue only). -/
 namespace Malt.Drv.C17
@@ -40,6 +41,10 @@ def handlers : List (String × (List Sexp → String)) := [
   ("c17.ctxok", fun a => run do
       let ss ← readSs a
       pure (toString (Sexp.ofBool (ctxOk ss)))),
+  -- (ctxOk arityOk) of a real tree
+  ("c17.treeok", fun a => run do
+      let ss ← readSs a
+      pure (toString (Sexp.list [Sexp.ofBool (ctxOk ss), Sexp.ofBool (arityOk ss)]))),
   -- which top-level statements / first-level children fail (diagnostics)
   ("c17.ctxbad", fun a => run do
       let ss ← readSs a
